@@ -107,7 +107,7 @@ func selfTest(r *chk.Run, sc *e1.Scenario) {
 	a := e1.Execute(sc, vrt.Config{Tracing: true, Budget: 0})
 	b := e1.Execute(sc, vrt.Config{Tracing: true, Budget: 0, Prefix: a.Sched.Choices()})
 	ta, tb := strings.Join(a.Sched.Trace, "\n"), strings.Join(b.Sched.Trace, "\n")
-	if ta != tb || e1.OutcomeKey(a) != e1.OutcomeKey(b) || fmt.Sprint(a.Final) != fmt.Sprint(b.Final) {
+	if ta != tb || e1.OutcomeKey(a) != e1.OutcomeKey(b) || jsonOf(a.Final) != jsonOf(b.Final) {
 		chk.Fatalf("determinism self-test failed on %s: two executions of the same schedule differ", sc.Name)
 	}
 	if a.Sched.Out.Diverged != "" || b.Sched.Out.Diverged != "" {
@@ -141,6 +141,8 @@ func runProp(r *chk.Run, prop string) {
 	results := runJobs(r, jobs)
 	agg(r, prop, jobs, results)
 }
+
+func jsonOf(v interface{}) string { b, _ := json.Marshal(v); return string(b) }
 
 func keys(m map[string]int) string {
 	k := []string{}
